@@ -224,3 +224,7 @@ def replay(case):
         if len(bad) > 3:
             break
     return dict(reproduced=bool(bad), detail="; ".join(bad[:3]))
+
+
+# translator validation (shared): the repository's own test inputs through both builds
+tv_cases, tv_real, tv_sym, tv_compare_hook = pipeline.tv_cases, pipeline.tv_real, pipeline.tv_sym, pipeline.tv_compare_hook
